@@ -55,6 +55,38 @@ def _has_strings(t, depth=0) -> bool:
 OBL_TIMEOUT_MS = 20000
 
 
+class Heap(dict):
+    """(ref, field) -> content.  A ref of the form ('mv', mapref, key_term) denotes the collection stored as the
+    value of a symbolic map at that key: reads select from / writes store into the map's value array."""
+
+    def _mv(self, key):
+        return isinstance(key, tuple) and len(key) == 2 and isinstance(key[0], tuple) and key[0] and key[0][0] == "mv"
+
+    def __getitem__(self, key):
+        if self._mv(key):
+            _, mapref, kterm = key[0]
+            return z3.Select(dict.__getitem__(self, (mapref, "val")), kterm)
+        return dict.__getitem__(self, key)
+
+    def __setitem__(self, key, value):
+        if self._mv(key):
+            _, mapref, kterm = key[0]
+            dict.__setitem__(self, (mapref, "val"), z3.Store(dict.__getitem__(self, (mapref, "val")), kterm, value))
+            return
+        dict.__setitem__(self, key, value)
+
+    def __contains__(self, key):
+        if self._mv(key):
+            return dict.__contains__(self, (key[0][1], "val"))
+        return dict.__contains__(self, key)
+
+    def get(self, key, default=None):
+        return self[key] if key in self else default
+
+    def copy(self):
+        return Heap(self)
+
+
 class State:
     def __init__(self, prefix, explorer):
         self.prefix = list(prefix)
@@ -64,7 +96,7 @@ class State:
         self.solver.set("timeout", FEAS_TIMEOUT_MS)
         self.solver.set("random_seed", 0)
         self.pc: list = []
-        self.heap: dict = {}
+        self.heap: Heap = Heap()
         self.next_ref = 1
         self.ghost: dict[str, object] = {}
         self.counter = 0
@@ -191,7 +223,7 @@ class State:
 
     # -------------------------------------------------------------- snapshots
     def snapshot(self):
-        return (dict(self.heap), dict(self.ghost))
+        return (Heap(self.heap), dict(self.ghost))
 
 
 class Explorer:
